@@ -289,6 +289,29 @@ def graph_cases(ctx: Ctx, nset: int, idx_in_set: int):
                     continue
                 v31 = any(k == "array_inline" for k in edges.values()) and (i // nset) % 2 == 0
                 yield _mk(2, edges, order, scheme, v31)
+    # denser three-schema graphs (hubs closing several cycles at once need >= 4-5 edges): every reference-only graph on
+    # 3 schemas, and a FIXED pseudo-random sample of mixed-kind graphs with 4-6 edges (fixed so that the extent of the
+    # recorded finding on this workload does not depend on VERIF_SEED)
+    import random as _random
+
+    for bits in range(1, 512):
+        edges3 = {(a, b): "ref" for k, (a, b) in enumerate(itertools.product(range(3), repeat=2)) if bits >> k & 1}
+        if len(edges3) < 4:
+            continue
+        i += 1
+        if i % nset != idx_in_set:
+            continue
+        yield _mk(3, edges3, (0, 1, 2) if bits % 2 else (2, 0, 1), "plain", False)
+    fixed = _random.Random(20240501)
+    for _ in range(400):
+        pairs = fixed.sample(list(itertools.product(range(3), repeat=2)), fixed.randint(4, 6))
+        edges3 = {p: fixed.choice(["ref", "ref", "array_ref", "inline_obj", "addl_props", "one_of", "array_inline"]) for p in pairs}
+        order3 = tuple(fixed.sample(range(3), 3))
+        scheme3 = fixed.choice(["plain", "prefix", "itemish"])
+        i += 1
+        if i % nset != idx_in_set:
+            continue
+        yield _mk(3, edges3, order3, scheme3, False)
     if not ctx.quick:
         for edges in graphgen.all_graphs(3, max_edges=3):
             for order in itertools.permutations(range(3)):
